@@ -409,6 +409,26 @@ func ruleBC1(c *Ctx) {
 		}
 		c.R.Check(strings.Contains(sx(fd.Body), want), "vm.bytecode."+fn, "decoder width", fd.Pos(), "reads what the emitter wrote", "decoder no longer matches the emitter's width")
 	}
+	// byte-level codec: writer and reader of 16-bit operands both delegate to encoding/binary big-endian
+	if w, r := c.FuncDecl("vm", "uint16ToByte"), c.FuncDecl("vm", "byteToUInt16"); w != nil && r != nil {
+		okW := len(c.callsTo(w.Body, "encoding/binary.bigEndian.PutUint16")) == 1
+		okR := len(c.callsTo(r.Body, "encoding/binary.bigEndian.Uint16")) == 1
+		arith := false
+		for _, fd := range []*ast.FuncDecl{w, r} {
+			ast.Inspect(fd.Body, func(x ast.Node) bool {
+				if be, ok := x.(*ast.BinaryExpr); ok {
+					switch be.Op {
+					case token.QUO, token.REM, token.SHL, token.SHR, token.MUL:
+						arith = true
+					}
+				}
+				return true
+			})
+		}
+		c.R.Check(okW && okR && !arith, "vm.uint16ToByte", "16-bit operands encoded and decoded by the same big-endian codec", w.Pos(), "binary.BigEndian.PutUint16 / Uint16", "the 16-bit operand writer and reader are not the same std codec (hand-written byte arithmetic): some operand values decode to a different number")
+	} else {
+		c.R.Anchor("vm.uint16ToByte / vm.byteToUInt16")
+	}
 	chk("readConst", "Fun:(SelectorExpr b Sel:readUint16)")
 	chk("readMediumInt", "Fun:(SelectorExpr b Sel:readUint16)")
 	chk("readUint16", "High:(BinaryExpr offset Op:+ Y:2)")
